@@ -673,6 +673,29 @@ def r6_damping_and_threshold(rule, root=None):
         rule.ok("damping changes only by constant factors (%d writes)" % nconst, file=SOL, line=fn["ln"])
     elif not any(v_["key"].startswith("%s|damping|write" % rule.id) for v_ in rule.violations):
         rule.lost("the grow / shrink updates of damping")
+    # the singular-value cutoff of the step's pseudo-inverse: an absolute threshold on the damped normal matrix, whose
+    # entries scale with the square of the equations' coefficients - anything above machine epsilon zeroes the step of
+    # a mildly scaled system (coefficients ~ 1e-3) and the solver returns its start
+    cuts = [c for c in A.find(view, "MethodCall") if c["method"] == "solve" and len(c["args"]) == 2 and "svd" in str(A.ftxt(c["recv"]))]
+    if len(cuts) != 1:
+        rule.lost("`.svd(..).solve(&jt_r, eps)` in solve()")
+    else:
+        e_ = A.strip(cuts[0]["args"][1])
+        val = _float_lit(e_)
+        tx = str(A.ftxt(e_))
+        if val is None and A.ident(e_):
+            for it in A.load(SOL, root).get("items", []):
+                if it.get("k") in ("Const", "Static") and it.get("name") == A.ident(e_) and it.get("e") is not None:
+                    val = _float_lit(it["e"])
+                    tx = str(A.ftxt(it["e"]))
+            for l_ in A.find(view, "Let"):
+                if A.binding_name(l_["pat"]) == A.ident(e_) and l_.get("init") is not None:
+                    val = _float_lit(l_["init"])
+                    tx = str(A.ftxt(l_["init"]))
+        if tx in ("f32::EPSILON", "std::f32::EPSILON", "core::f32::EPSILON") or (val is not None and 0 <= val <= 1.1920929e-07 * 1.0001):
+            rule.ok("the pseudo-inverse drops singular values only below machine epsilon (%s)" % tx, file=SOL, line=cuts[0]["ln"])
+        else:
+            rule.bad("lm|svd-cutoff", "the step's pseudo-inverse treats singular values below `%s` as zero; the cutoff is absolute, so it must not exceed f32::EPSILON - a larger one zeroes the whole step of a consistent system with small coefficients" % tx, A.where(SOL, cuts[0]))
     # thresholds on the error
     n = 0
     for b in A.find(view, "Binary"):
@@ -717,7 +740,7 @@ def run(ctx):
     r = ctx.rule("R5", "every equation is evaluated in every iteration: the loops over the tapes have no early exit, and each equation rewrites the rows of all its parameters", 4)
     ctx.guarded(r, r5_every_equation)
     ctx.guarded(r, r_rows_rewritten_per_equation)
-    r = ctx.rule("R6", "the damping schedule is scale-free (constant start, constant factors) and the convergence threshold on the error is an absolute constant", 3)
+    r = ctx.rule("R6", "the damping schedule is scale-free (constant start, constant factors) and the convergence threshold on the error is an absolute constant; the pseudo-inverse cutoff is machine epsilon", 4)
     ctx.guarded(r, r6_damping_and_threshold)
     # this property quantifies over every shape and both backends, so it needs the evaluators it consults to be right
     ctx.include('C05', "the Jacobian is the gradient evaluators' output", skip=())
